@@ -49,32 +49,41 @@ def dropLast (s : Str) : Str := s.take (s.length - 1)
 
 def lastIs (s : Str) (c : Char) : Bool := s.getLast? == some c
 
-/-- `into_identifier`. `icFeature` = the crate is built with feature `ignore_case`. -/
+/-- The case decision of `into_identifier` (identifier.rs:55-61). `icFeature` = the crate is
+    built with feature `ignore_case` (then no `i` prefix is interpreted). -/
+def stripCase (icFeature : Bool) (self : Str) : Bool × Str :=
+  if icFeature then (true, self) else
+  match self with
+  | 'i' :: r => (true, r)
+  | _ => (false, self)
+
+def foldIf (ci : Bool) (x : Str) : Str := if ci then toAsciiLowercase x else x
+
+/-- The literal-pattern branches (identifier.rs:129-168). -/
+def literalPattern (ci : Bool) (s : Str) : Pattern :=
+  if s == ['*'] then .any
+  else if s.head? == some '*' && lastIs s '*' then .contains (foldIf ci (dropLast (s.drop 1)))
+  else if s.head? == some '*' then .endsWith (foldIf ci (s.drop 1))
+  else if lastIs s '*' then .startsWith (foldIf ci (dropLast s))
+  else if s.length > 1 && ((s.head? == some '"' && lastIs s '"') || (s.head? == some '\'' && lastIs s '\''))
+    then .exact (foldIf ci (dropLast (s.drop 1)))
+  else .exact (foldIf ci s)
+
+/-- The pattern of the (prefix-stripped) string (identifier.rs:62-168). -/
+def patternOf (E : RegexEngine) (ci : Bool) (s : Str) : Except Err Pattern :=
+  match s with
+  | '?' :: r => if E.compiles r ci then .ok (.regex r) else .error .parseInvalidIdent
+  | '>' :: '=' :: r => parseNumPat .ge r
+  | '>' :: r => parseNumPat .gt r
+  | '<' :: '=' :: r => parseNumPat .le r
+  | '<' :: r => parseNumPat .lt r
+  | '=' :: r => parseNumPat .eq r
+  | _ => .ok (literalPattern ci s)
+
+/-- `into_identifier`. -/
 def intoIdentifier (E : RegexEngine) (icFeature : Bool) (self : Str) : Except Err Ident :=
-  let (ci, s) : Bool × Str :=
-    if icFeature then (true, self) else
-    match self with
-    | 'i' :: r => (true, r)
-    | _ => (false, self)
-  let fold (x : Str) : Str := if ci then toAsciiLowercase x else x
-  let pat : Except Err Pattern :=
-    match s with
-    | '?' :: r => if E.compiles r ci then .ok (.regex r) else .error .parseInvalidIdent
-    | '>' :: '=' :: r => parseNumPat .ge r
-    | '>' :: r => parseNumPat .gt r
-    | '<' :: '=' :: r => parseNumPat .le r
-    | '<' :: r => parseNumPat .lt r
-    | '=' :: r => parseNumPat .eq r
-    | _ =>
-      if s == ['*'] then .ok .any
-      else if s.head? == some '*' && lastIs s '*' then .ok (.contains (fold (dropLast (s.drop 1))))
-      else if s.head? == some '*' then .ok (.endsWith (fold (s.drop 1)))
-      else if lastIs s '*' then .ok (.startsWith (fold (dropLast s)))
-      else if s.length > 1 && ((s.head? == some '"' && lastIs s '"') || (s.head? == some '\'' && lastIs s '\''))
-        then .ok (.exact (fold (dropLast (s.drop 1))))
-      else .ok (.exact (fold s))
-  match pat with
-  | .ok p => .ok { ci := ci, pat := p }
+  match patternOf E (stripCase icFeature self).1 (stripCase icFeature self).2 with
+  | .ok p => .ok { ci := (stripCase icFeature self).1, pat := p }
   | .error e => .error e
 
 end Tau
